@@ -1,0 +1,61 @@
+/*
+ * Copyright 2025 The Go-Spring Authors.
+ *
+ * Licensed under the Apache License, Version 2.0 (the "License");
+ * you may not use this file except in compliance with the License.
+ * You may obtain a copy of the License at
+ *
+ *      https://www.apache.org/licenses/LICENSE-2.0
+ *
+ * Unless required by applicable law or agreed to in writing, software
+ * distributed under the License is distributed on an "AS IS" BASIS,
+ * WITHOUT WARRANTIES OR CONDITIONS OF ANY KIND, either express or implied.
+ * See the License for the specific language governing permissions and
+ * limitations under the License.
+ */
+
+package log
+
+import (
+	"io"
+	"sync"
+)
+
+// lineCombiner reduces the number of write calls when several goroutines
+// write lines to the same target at the same time: lines that arrive while
+// one goroutine is inside the target's Write are combined and written by
+// that goroutine with a single call. Every line stays contiguous and the
+// lines keep their arrival order. Without contention each line is written
+// by its own caller, exactly as a plain Write would do.
+type lineCombiner struct {
+	mu      sync.Mutex
+	writing bool   // a goroutine is inside w.Write
+	pending []byte // lines that arrived meanwhile
+}
+
+// write writes the line b to w.
+func (c *lineCombiner) write(w io.Writer, b []byte) {
+	c.mu.Lock()
+	if c.writing {
+		c.pending = append(c.pending, b...)
+		c.mu.Unlock()
+		return
+	}
+	c.writing = true
+	c.mu.Unlock()
+
+	_, _ = w.Write(b)
+
+	for {
+		c.mu.Lock()
+		if len(c.pending) == 0 {
+			c.writing = false
+			c.mu.Unlock()
+			return
+		}
+		p := c.pending
+		c.pending = nil
+		c.mu.Unlock()
+		_, _ = w.Write(p)
+	}
+}
